@@ -1,28 +1,44 @@
+# C20 - entity-capabilities hash.  See h_vs.cpp (verification string) and h_mgr.cpp (manager / client half).
 TUS = ['src/base/QXmppDataForm.cpp']
 MODELS = ['c20_qt_core.c', 'c20_qt_list.c', 'c20_models.c']
-LB = {'check_against_oracle': 42, 'verificationStringEv': 4}
+LB = {'check_against_oracle': 42}
 VS = 'F__ZNK16QXmppDiscoveryIq18verificationStringEv'
-# every loop of verificationString walks a list of at most 3 elements (identities 2, features 3, fields 3, keys 2): bound 4.
+# every loop of verificationString walks a list of at most 3 elements (identities 2, features 3, fields 3, keys 2): bound 4
 # (a list whose length is symbolic would otherwise be walked up to the global bound through slots that hold no element)
 VS_UW = ['%s.%d:4' % (VS, k) for k in range(10)]
 def I(name, entry, n=(), **kw):
     cd = {'C20_HAVE_IDLESS': 1}
     for k, v in enumerate(n):
         if v is not None: cd['C_N%d' % k] = v
-    d = dict(name=name, entry=entry, cdefs=cd, unwindset=list(VS_UW), unwind=9, timeout_s=300, mem_gb=6, solver='cadical', tiers=('quick', 'thorough'), bound=''); d.update(kw); return d
-def G(name, insts, **defs):
-    return dict(name=name, harness='h_vs.cpp', tus=TUS, models=MODELS, cxxdefs=defs, loop_bounds=LB, instances=insts)
+    d = dict(name=name, entry=entry, cdefs=cd, unwindset=list(VS_UW), unwind=9, timeout_s=400, mem_gb=6, solver='cadical', tiers=('quick', 'thorough'), bound=''); d.update(kw); return d
+B_ID = 'identities: 4 fields each 0..2 units over {a,b,B}'
 SPEC = dict(
     property='C20',
     groups=[
-        G('vs', [
-            I('idfeat_ref_2_0', 'h_idfeat_ref', (2, 0)), I('idfeat_ref_1_1', 'h_idfeat_ref', (1, 1)), I('idfeat_ref_0_3', 'h_idfeat_ref', (0, 3)),
-            I('idfeat_ref_2_3', 'h_idfeat_ref', (2, 3)),
-            I('feat_iff_3_3', 'h_feat_iff', (3, 3, 1)), I('feat_iff_3_2', 'h_feat_iff', (3, 2, 1)), I('feat_iff_3_1', 'h_feat_iff', (3, 1, 1)), I('feat_iff_2_2_noid', 'h_feat_iff', (2, 2, 0)),
-            I('id_iff_2_2', 'h_id_iff', (2, 2)), I('id_iff_2_1', 'h_id_iff', (2, 1)),
-            I('form_ref_2f', 'h_form_ref', (1, 0, 2, 1, 2, 1, 1)),
-            I('form_ref_1m', 'h_form_ref', (1, 0, 2, 0, 1, 1, 0, 1)), I('form_ref_2s', 'h_form_ref', (1, 0, 1, 1, 2, 1, 2, 0)),
+        dict(name='vs', harness='h_vs.cpp', tus=TUS, models=MODELS, cxxdefs={}, loop_bounds=LB, instances=[
+            # (ii) hashed string == XEP-0115 5.1 reference; n = (identities, features)
+            I('idfeat_ref_2_0', 'h_idfeat_ref', (2, 0), bound='2 identities, no feature'),
+            I('idfeat_ref_1_1', 'h_idfeat_ref', (1, 1), bound='1 identity, 1 feature'),
+            I('idfeat_ref_0_3', 'h_idfeat_ref', (0, 3), bound='no identity, 3 features (duplicates allowed)'),
+            I('idfeat_ref_2_3', 'h_idfeat_ref', (2, 3), bound='2 identities, 3 features (duplicates allowed)'),
+            # (i)+(iii) two inputs hash the same string iff equal as sets / multisets; n = (|A|, |B|, shared identities)
+            I('feat_iff_3_3', 'h_feat_iff', (3, 3, 1), bound='feature lists of 3 and 3 after one arbitrary identity'),
+            I('feat_iff_3_2', 'h_feat_iff', (3, 2, 1), bound='feature lists of 3 and 2 after one arbitrary identity'),
+            I('feat_iff_3_1', 'h_feat_iff', (3, 1, 0), bound='feature lists of 3 and 1, no identity'),
+            I('id_iff_2_2', 'h_id_iff', (2, 2), bound='identity lists of 2 and 2'),
+            I('id_iff_2_1', 'h_id_iff', (2, 1), bound='identity lists of 2 and 1'),
+            # forms: n = (identities, features, values of field 0, values of field 1, fields, FORM_TYPE present, its position, kinds bitmask)
+            I('form_ref_1m', 'h_form_ref', (1, 0, 2, 0, 1, 1, 0, 1), bound='FORM_TYPE + one list-multi field with 2 values'),
+            I('form_ref_1m_ftlast', 'h_form_ref', (1, 0, 2, 0, 1, 1, 1, 1), bound='one list-multi field with 2 values, FORM_TYPE after it'),
+            I('form_ref_1m_1', 'h_form_ref', (1, 0, 1, 0, 1, 1, 0, 1), bound='FORM_TYPE + one list-multi field with 1 value'),
+            I('form_ref_1m_0', 'h_form_ref', (1, 0, 0, 0, 1, 1, 0, 1), bound='FORM_TYPE + one list-multi field with an empty value list'),
+            I('form_ref_1s_n', 'h_form_ref', (1, 0, None, 0, 1, 1, 0, 0), bound='FORM_TYPE + one text-single field with 0..1 value'),
+            I('form_ref_2s', 'h_form_ref', (1, 0, 1, 1, 2, 1, 2, 0), bound='two text-single fields, FORM_TYPE last'),
+            I('form_ref_noft', 'h_form_ref', (1, 1, 1, 0, 1, 0, 0, 0), bound='form without FORM_TYPE (ignored)'),
+            I('form_kf_empty', 'h_form_kf_empty', (), known_finding='empty_field_value', bound='FORM_TYPE + one text-single field with the empty value'),
         ]),
     ],
-    bounds=[], assumptions=[], outside=[],
+    bounds=['strings: 0..2 UTF-16 units over the alphabet {a, b, B}', '<= 2 identities (category/type/lang/name), <= 3 features with duplicates, optional form with FORM_TYPE (any position) and <= 2 further fields with <= 2 values',
+            'list lengths are fixed per instance (case split), contents symbolic', 'std::sort ranges <= 3 elements'],
+    assumptions=[], outside=[],
 )
